@@ -344,6 +344,10 @@ func (s *session) ciscoClass(line string) string {
 	switch {
 	case line == "end", line == "exit", line == "":
 		return "mode"
+	case strings.HasPrefix(line, "sh "), strings.HasPrefix(line, "show "), line == "write term":
+		// Display commands stay display commands when the session is
+		// still in configuration mode (ASA executes them, IOS refuses).
+		return "read-only"
 	case strings.HasPrefix(line, "do reload in "):
 		return "guard"
 	case s.spec.Type == "asa" && line == "terminal width 511":
@@ -566,7 +570,12 @@ func (s *session) ciscoLoop() {
 			s.w("%s", s.prompt())
 			continue
 		}
-		if s.mode == "exec" {
+		if s.mode == "config" && class == "read-only" && sp.Type == "ios" {
+			s.event(line, class, "rejected:exec-command-in-config-mode")
+			s.ciscoReply(line, "% Invalid input detected at '^' marker.\r\n")
+			continue
+		}
+		if s.mode == "exec" || class == "read-only" {
 			switch {
 			case line == "exit":
 				s.event(line, class, "accepted")
